@@ -154,6 +154,10 @@ SmallBufferGlobals& getSmallBufferGlobals();
 }
 } // namespace dispenso
 
+namespace dispenso {
+extern std::atomic<uint64_t> nextThread; // thread_id.cpp
+}
+
 namespace mc {
 void (*g_user_prewarm)() = nullptr;
 void (*g_user_reset)() = nullptr;
@@ -176,6 +180,7 @@ extern "C" void mc_reset_hook(void) {
   reset_small_buffers<64>();
   reset_small_buffers<128>();
   reset_small_buffers<256>();
+  dispenso::nextThread.a_.store(0, std::memory_order_relaxed); // threadId() numbering restarts with each execution
   if (mc::g_user_reset) mc::g_user_reset();
 #ifdef MC_ASAN
   g_alloc_before = __sanitizer_get_current_allocated_bytes();
